@@ -107,7 +107,7 @@ func c02(c *Ctx) {
 			}
 			carriers := []*D{h.SliceAny(elems...)}
 			if n > 0 {
-				carriers = append(carriers, h.Slice("other", elems...), &D{Tag: "ar", Ety: "any", Xs: elems})
+				carriers = append(carriers, h.TypedSlice(elems...), &D{Tag: "ar", Ety: "any", Xs: elems})
 			}
 			for ci, arr := range carriers {
 				doc := h.Obj("xs", arr, "t", h.Bool(true), "u", h.Bool(false), "lim", h.FloatD(2))
